@@ -152,7 +152,7 @@ M("C09", "sdss-etapole-sign-southern", [(CO, "    ceta = z\n    ceta -= _sdsspar
   "eta shifted by 1e-7 rad before wrapping on the far side")
 M("C09", "shiftlon-negshift-no-wrap", [(CO, "            (w,) = np.where(lon > 360.0)\n            if w.size > 0:\n                lon[w] -= 360.0", "            (w,) = np.where(lon > 540.0)\n            if w.size > 0:\n                lon[w] -= 360.0")],
   "negative shifts leave values up to 540")
-M("C09", "rotate-dec-arcsin-clamp-asym", [(CO, "    dec_out = arcsin(b)\n", "    dec_out = arcsin(b)\n    dec_out[sb < -0.99999] *= -1\n")],
+M("C09", "rotate-dec-arcsin-clamp-asym", [(CO, "    dec_out = arctan2(b, sqrt(xo * xo + yo * yo))\n", "    dec_out = arctan2(b, sqrt(xo * xo + yo * yo))\n    dec_out[sb < -0.99999] *= -1\n")],
   "points within 0.26 deg of the south pole are mirrored")
 
 # ---- C19
